@@ -152,6 +152,8 @@ OutputsOf(rs, id, b) ==
 
 RespCb(id, b, outs, thr) == [kind |-> "resp", id |-> id, outs |-> outs, err |-> Len(outs) < thr]
 StateCb(id, cause)       == [kind |-> "state", id |-> id, cause |-> cause]
+\* the owning module answered a callback by calling the keeper for its context (op), with this outcome
+ReactCb(id, op, ok)      == [kind |-> "react", id |-> id, op |-> op, ok |-> ok]
 
 -----------------------------------------------------------------------------
 (* Definitions *)
@@ -301,13 +303,20 @@ SlashAmt(bd, k) == SlashOf(bd[k].dep)
 -----------------------------------------------------------------------------
 (* Request contexts: keeper/invocation.go *)
 
-NewCtx(s, ps, c, input, cap, t, super, rep, f, n, st, thr, mod) ==
+NewCtxR(s, ps, c, input, cap, t, super, rep, f, n, st, thr, mod, rr, rs) ==
+
     [svc |-> s, provs |-> ps, cons |-> c, input |-> input, cap |-> cap, timeout |-> t,
      super |-> super, rep |-> rep,
      freq  |-> IF rep THEN (IF f = 0 THEN t ELSE f) ELSE 0,
      total |-> IF rep THEN n ELSE 0,
      batch |-> 0, reqCount |-> 0, respCount |-> 0, bthr |-> thr, bstate |-> "completed",
-     state |-> st, thr |-> thr, module |-> mod]
+     state |-> st, thr |-> thr, module |-> mod,
+     \* what the owning module does from inside its response / state callback ("" | "pause" | "kill"):
+     \* state of the (test) module, kept with the context it belongs to
+     rresp |-> rr, rstate |-> rs]
+
+NewCtx(s, ps, c, input, cap, t, super, rep, f, n, st, thr, mod) ==
+    NewCtxR(s, ps, c, input, cap, t, super, rep, f, n, st, thr, mod, "", "")
 
 \* capok: the fee cap is exactly one coin of the base denomination
 \* inok: the input satisfies the input schema
@@ -342,12 +351,27 @@ CanModCreate(c, s, ps, capok, inok, t, thr) ==
     /\ thr >= 1 /\ thr <= Len(ps)
     /\ CanCreate(s, capok, inok, t)
 
-ModCreate(mod, c, s, ps, input, cap, capok, inok, t, super, rep, f, n, st, thr) ==
+ModCreateR(mod, c, s, ps, input, cap, capok, inok, t, super, rep, f, n, st, thr, rr, rs) ==
     /\ CanModCreate(c, s, ps, capok, inok, t, thr)
-    /\ CreateEffects(nctx + 1, NewCtx(s, ps, c, input, cap, t, super, rep, f, n, st, thr, mod))
+    /\ CreateEffects(nctx + 1, NewCtxR(s, ps, c, input, cap, t, super, rep, f, n, st, thr, mod, rr, rs))
     /\ cb' = <<>>
     /\ UNCHANGED <<height, now, phase, params, bal, supply, defs, bind, powner, oprov, obind,
                    waddr, expQ, expQH, req, actId, actBind, resp, vol, earned, oearned>>
+
+ModCreate(mod, c, s, ps, input, cap, capok, inok, t, super, rep, f, n, st, thr) ==
+    ModCreateR(mod, c, s, ps, input, cap, capok, inok, t, super, rep, f, n, st, thr, "", "")
+
+\* Re-entrancy: from inside a callback the owning module may pause or kill the context the callback is
+\* about.  The callback is made after the step's own change to the context has been recorded (the batch
+\* completed, the context paused), the module's call is an ordinary keeper call at that point, and what it
+\* does stays done.  (As found - D13 - the caller of the response callback wrote its own copy of the
+\* context back afterwards, undoing the module's call.)
+ReactOK(c, op) == CASE op = "pause" -> c.rep /\ c.state = "running"
+                    [] op = "kill"  -> c.rep
+                    [] OTHER -> FALSE
+Reacted(c, op) == IF ~ReactOK(c, op) \/ "D13" \in Defects THEN c
+                  ELSE [c EXCEPT !.state = IF op = "pause" THEN "paused" ELSE "completed"]
+ReactCbs(id, c, op) == IF op = "" THEN <<>> ELSE <<ReactCb(id, op, ReactOK(c, op))>>
 
 \* CheckAuthority(..., checkModule): handler path checks the module, keeper path does not
 AuthMsg(c, id) == id \in DOMAIN ctx /\ ctx[id].cons = c /\ ctx[id].module = ""
@@ -471,11 +495,12 @@ Respond(p, r, kind, out) ==
        /\ actId' = actId \ {r}
        /\ actBind' = actBind \ {<<c.svc, p, q.exp, r>>}
        /\ vol' = Put(vol, <<c.cons, c.svc, p>>, Get0(vol, <<c.cons, c.svc, p>>) + 1)
-       /\ ctx' = [ctx EXCEPT ![id].respCount = @ + 1,
-                             ![id].bstate = IF done THEN "completed" ELSE @]
-       /\ cb' = IF done /\ c.module # ""
-                THEN <<RespCb(id, c.batch, OutputsOf(rs, id, c.batch), c.bthr)>>
-                ELSE <<>>
+       /\ LET c1 == [c EXCEPT !.respCount = @ + 1, !.bstate = IF done THEN "completed" ELSE @]
+              op == IF done /\ c.module # "" THEN c.rresp ELSE ""
+          IN /\ ctx' = [ctx EXCEPT ![id] = Reacted(c1, op)]
+             /\ cb' = IF done /\ c.module # ""
+                      THEN <<RespCb(id, c.batch, OutputsOf(rs, id, c.batch), c.bthr)>> \o ReactCbs(id, c1, op)
+                      ELSE <<>>
     /\ UNCHANGED <<height, now, phase, params, defs, powner, oprov, obind, waddr, nctx, newQ,
                    newQH, expQ, expQH, req>>
 
@@ -569,7 +594,9 @@ ExpireBatch(id) ==
                       IF k \in keys /\ slashOK(k) THEN SlashedBind(bind, k)[k] ELSE bind[k]]
            burnt == SumOver([k \in keys |-> IF slashOK(k) THEN SlashAmt(bind, k) ELSE 0], keys)
            refund == SumOver([r \in P |-> req[r].fee], P)
-           c1   == IF open THEN [c EXCEPT !.bstate = "completed"] ELSE c
+           c0   == IF open THEN [c EXCEPT !.bstate = "completed"] ELSE c
+           op   == IF open /\ c.module # "" THEN c.rresp ELSE ""
+           c1   == Reacted(c0, op)
            gone == RemovedAtExpiry(c1)
            again == c1.state = "running" /\ ~Finished(c1)
            nh   == height - c1.timeout + c1.freq
@@ -583,7 +610,7 @@ ExpireBatch(id) ==
        /\ actId' = actId \ S
        /\ actBind' = {a \in actBind : a[4] \notin S}
        /\ cb' = IF open /\ c.module # ""
-                THEN <<RespCb(id, c.batch, OutputsOf(resp, id, c.batch), c.bthr)>>
+                THEN <<RespCb(id, c.batch, OutputsOf(resp, id, c.batch), c.bthr)>> \o ReactCbs(id, c0, op)
                 ELSE <<>>
        /\ expQ' = expQ \ {<<height, id>>}
        /\ expQH' = Drop(expQH, {id})
@@ -651,7 +678,10 @@ StartBatch(id) ==
                /\ UNCHANGED <<bal, expQ, expQH, req, actId, actBind>>
           ELSE
           /\ bal' = IF enough /\ ~c.super /\ ~broke THEN Move(bal, c.cons, REQ, total) ELSE bal
-          /\ cb' = IF broke /\ c.module # "" THEN <<StateCb(id, "insufficient balances")>> ELSE <<>>
+          /\ cb' = IF broke /\ c.module # ""
+                   THEN <<StateCb(id, "insufficient balances")>>
+                        \o (IF issue THEN <<>> ELSE ReactCbs(id, [c EXCEPT !.bstate = "completed", !.state = "paused"], c.rstate))
+                   ELSE <<>>
           /\ IF ~enough
              THEN \* SkipCurrentRequestBatch
                   /\ ctx' = [ctx EXCEPT ![id] = [c EXCEPT !.batch = b1, !.bstate = "running",
@@ -661,7 +691,11 @@ StartBatch(id) ==
                   /\ UNCHANGED <<req, actId, actBind>>
              ELSE IF ~issue
              THEN \* OnRequestContextPaused, nothing issued
-                  /\ ctx' = [ctx EXCEPT ![id] = [c EXCEPT !.bstate = "completed", !.state = "paused"]]
+                  /\ ctx' = [ctx EXCEPT ![id] =
+                               LET cp == [c EXCEPT !.bstate = "completed", !.state = "paused"]
+                               IN IF c.module # "" /\ ReactOK(cp, c.rstate)
+                                  THEN [cp EXCEPT !.state = IF c.rstate = "kill" THEN "completed" ELSE cp.state]
+                                  ELSE cp]
                   /\ UNCHANGED <<expQ, expQH, req, actId, actBind>>
              ELSE \* InitiateRequests (as found with D1: also after the pause)
                   /\ ctx' = [ctx EXCEPT ![id] =
